@@ -3,6 +3,7 @@ from ..lib import *
 from ..terms import TermBuilder
 from .. import rec
 
+NEED_DEPS = True
 EXPLANATION = (
     "FLOW/TABLE/REC rules. C14.1: is_equivalent_to = eq(digest(self), digest(other)). C14.2: is_identical_to evaluated under "
     "every valuation of (equivalent, structural digests equal) returns exactly (F,*)->false, (T,F)->false, (T,T)->true; any branch "
@@ -11,9 +12,9 @@ EXPLANATION = (
     "EVERY visited element (the append post-dominates the visitor's entry), appends digest(element) preceded by a per-class marker; "
     "the marker constants of {elided, encrypted, compressed} are pairwise distinct and the non-obscured arm appends no marker, so the "
     "per-element contribution is injective in (class, digest). Depends on C15.1 (walk completeness) and C01.4 (immutability). "
-    "Reflexivity/symmetry/transitivity follow from comparing a pure function of an immutable value.")
+    "Reflexivity/symmetry/transitivity follow from comparing a pure function of an immutable value. C14.6: identity preserved by encoding and decoding = every C05 instance (writer/reader table agreement, predicate tables, writer image inside reader domain) re-evaluated under this property.")
 TRUSTED = ['Digest PartialEq compares the 32 bytes', 'Digest::from_image = SHA-256']
-FLOORS = {'C14.1': 1, 'C14.2': 1, 'C14.3': 1, 'C14.4': 3}
+FLOORS = {'C14.1': 1, 'C14.2': 1, 'C14.3': 1, 'C14.4': 3, 'C14.6': 30}
 P1, P2 = ('param', 1), ('param', 2)
 
 
@@ -191,3 +192,11 @@ def check(ctx):
     if ctx.has('compress'):
         from .C13 import check_compress_table
         check_compress_table(ctx, 'C14.5', 'C14.5')
+    # C14.6: "identity is preserved by encoding and decoding": the round-trip agreement of writer and reader (every C05 instance)
+    # re-evaluated under this property
+    from . import C05
+    from .C07 import Relabel
+    try:
+        C05.check(Relabel(ctx, 'C14.6', ['C05']))
+    except Exception as e:
+        ctx.fail('C14.6', '-', 'encode/decode agreement (C05) could not be evaluated: %r' % e, key='C14.6|c05')
